@@ -109,7 +109,14 @@ def real_runs(rng, n_runs):
 
         def check(models, what):
             c = algrun.cond_of(models)
-            if not np.isfinite(c) or c > 1e8:
+            # the rounding error of an update made through an ill-conditioned system stays in the models until
+            # the next reset: the allowance accumulates the conditioning of EVERY system since the last rebuild,
+            # also of those too ill-conditioned to be checked themselves
+            if not np.isfinite(c):
+                saved["acc"] = float("inf")
+                return
+            saved["acc"] = max(c, 1.0) if what in ("reset_models", "the initial sampling") else saved.get("acc", 0.0) + max(c, 1.0)
+            if saved["acc"] > 1e8:
                 return
             fv, rec, _ = algrun.float_state(models, [])
             if not all(np.isfinite(v) for row in rec for v in row):
@@ -117,7 +124,6 @@ def real_runs(rng, n_runs):
             scale = max(1.0, max(abs(v) for row in rec for v in row))
             err = max(abs(a - b) for ra, rb in zip(fv, rec) for a, b in zip(ra, rb))
             n_checks[0] += 1
-            saved["acc"] = saved.get("acc", 0.0) + max(c, 1.0)
             worst[0] = max(worst[0], err / (EPS * saved["acc"] * scale))
             if err > TOLF * EPS * saved["acc"] * scale and not bad:
                 bad.append(f"after {what} a model differs from the recorded value at an interpolation point by {err!r} (cond {c:.3g})")
